@@ -48,6 +48,17 @@ def spec (q : Nat) (u t : Leg) (o : Out) : Bool :=
     else
       o.result == .msg tag false && o.tcpCalls == 0
 
+/-- `dnsutils.ReadMsgFromUDP`: a datagram of `n` octets that does not decode (`unpackFailed`) and whose third octet
+    is `b2` is handed on as a header-only TC message iff `err != nil && n >= 12 && b[2]&(1<<1) != 0`. -/
+def udpTcHeaderOnly (unpackFailed : Bool) (n b2 : Nat) : Bool :=
+  unpackFailed && decide (n ≥ 12) && (b2 &&& 2 != 0)
+
+/-- a reply (QR=1, RD=1, TC=`tc`: third octet 0x81 / 0x83) cut to `n` octets in the middle of a record does not
+    decode: the UDP leg hands on a TC message iff `udpTcHeaderOnly`; otherwise the datagram is ignored and the
+    exchange ends with an error at the caller's deadline. -/
+def cutReply (tag : Nat) (tc : Bool) (n : Nat) : Leg :=
+  if udpTcHeaderOnly true n (129 + (if tc then 2 else 0)) then .msg tag true else .err
+
 /-! ### line protocol -/
 
 def legOfStr (s : String) : Option Leg :=
@@ -60,10 +71,13 @@ def legOfStr (s : String) : Option Leg :=
       pure (.msg tag tc)
   -- a reply of more than 4096 octets ("big"), a TC reply cut in the middle of a record ("cut"): still a reply
   -- with / without TC as far as the property is concerned
-  | ["ok", tag, tc, _shape] => do
+  | ["ok", tag, tc, shape] => do
       let tag ← natOfStr tag
       let tc ← boolOfStr tc
-      pure (.msg tag tc)
+      if shape.startsWith "cut" then
+        -- "cut": at 512 octets; "cut<N>": at N octets
+        pure (cutReply tag tc ((natOfStr (shape.drop 3).toString).getD 512))
+      else pure (.msg tag tc)
   | _ => none
 
 def strOfLeg : Leg → String
